@@ -53,7 +53,12 @@ impl InstallManifest {
         }
 
         // Parse file entries
-        let mut entries = Vec::with_capacity(header.entry_count as usize);
+        // The count comes from the header: reserve no more than the remaining
+        // input can hold (path terminator + content key + size per entry)
+        let remaining = data.len().saturating_sub(cursor.position() as usize);
+        let min_entry_size = 1 + header.ckey_length as usize + 4;
+        let mut entries =
+            Vec::with_capacity((header.entry_count as usize).min(remaining / min_entry_size));
         for _ in 0..header.entry_count {
             let entry = InstallFileEntry::read_options(
                 &mut cursor,
